@@ -40,7 +40,7 @@ package chpool
 //@   ensures r == c.res.value.client
 
 //@ contract (c *Client) Do(ctx, q) (err) props(C11)
-//@   requires c != nil && c.res != nil && c.res.acquired && c.res.value != nil && c.res.value.client != nil
+//@   requires ctx != nil && c != nil && c.res != nil && c.res.acquired && c.res.value != nil && c.res.value.client != nil
 //@   modifies all(c.res.value.client), all(ctx)
 //@ contract (c *Client) Ping(ctx) (err) props(C11)
 //@   requires c != nil && c.res != nil && c.res.acquired && c.res.value != nil && c.res.value.client != nil
@@ -58,7 +58,7 @@ package chpool
 //@   ensures c.client.closed {destructor-closes-client}
 
 //@ contract (p *Pool) Do(ctx, q) (err) props(C11)
-//@   requires p != nil && p.pool != nil
+//@   requires ctx != nil && p != nil && p.pool != nil
 //@   modifies all(p.pool), all(ctx)
 //@ contract (p *Pool) Ping(ctx) (err) props(C11)
 //@   requires p != nil && p.pool != nil
